@@ -9,7 +9,7 @@ import verif.contracts  # noqa
 import verif.specs as _S
 from verif.contracts.common import rand_bytes
 from verif.contracts import bcur as CB
-from .C09 import run_cases, direct
+from .C09 import run_cases, direct, category_job
 
 T = _S.text
 CONTRACTS = [n for n, c in REG.contracts.items() if "C20" in c.props]
@@ -326,8 +326,10 @@ def bc32_single_errors(tier):
     return out
 
 
+CATEGORY_CONTRACTS = [n for n in CONTRACTS if ("#rejects-" in n or "#accepts" in n) and REG.contracts[n].gen is not None]
 TABLES = [("bc32_single_errors", bc32_single_errors)]
 BOUNDED = [("rt-contracts", fuzz_job(CONTRACTS)),
+           ("accept-reject-categories", category_job(CATEGORY_CONTRACTS)),
            ("cbor-boundaries-all-layers", boundaries),
            ("every-length-roundtrip", every_length_small),
            ("every-chunk-size-1..2000", every_chunk_size),
